@@ -11,6 +11,10 @@ Modes (see mode_for):
                                 frames longer than the local maximum
   corrupt                       flipped frame type, garbage / truncated payload, out-of-phase
                                 message, exception in session code
+  xfw                           cross-framework pairing: the local real endpoint (this worker's framework)
+                                against the real endpoint of the *other* framework in a helper interpreter
+                                (sim/xpeer.py); handshake and traffic in both directions, all octets travel
+                                under this worker's seeded segmentation
 """
 
 import struct
@@ -42,9 +46,9 @@ def mode_for(index, tier):
         if n != 65536 and k % 4 == 0:
             value = 0x7F00 | (k // 4) % 256
         return [role, value]
-    k = index % 10
+    k = index % 12
     return ("ws-negotiate", "ws-negotiate", "traffic", "traffic", "traffic", "rs-limits", "corrupt", "corrupt", "rs-hs-server-gen",
-            "rs-hs-client-gen")[k]
+            "rs-hs-client-gen", "xfw", "xfw")[k]
 
 
 class World(StackWorld):
@@ -78,6 +82,8 @@ class World(StackWorld):
             self.build_traffic()
         elif name == "rs-limits":
             self.build_rs_limits()
+        elif name == "xfw":
+            self.build_xfw()
         else:
             self.build_corrupt()
         self.run.log("cfg", sorted((k, repr(v)) for k, v in self.cfg.items()))
@@ -257,6 +263,243 @@ class World(StackWorld):
             out.append(msg)
         return out
 
+
+    # --- cross-framework pairing ------------------------------------------------------------------------------------------
+    def build_xfw(self):
+        """The local endpoint is real code of this worker's framework, the remote one real code of the other framework
+        (helper interpreter).  Serializer lists, roles, limits and the message plans are drawn here; the helper only
+        executes."""
+        from sim.xpeer import Helper
+        ch = self.run.ch
+        cfg = self.cfg
+        other = cfg["remote_fw"] = "aio" if self.fwname == "tx" else "tx"
+        kind = cfg["kind"] = ch.pick(("rs", "ws"), "kind")
+        local_server = cfg["local_server"] = ch.flag("local-is-server")
+        self.limit = {"L": None, "R": None}  # what X may send = what its peer accepts
+        lopts = ropts = None
+        aio_exp = None
+        if kind == "rs":
+            ser = cfg["ser"] = ch.pick(SER_NAMES, "ser")
+            cfg["batched"] = False
+            lsers = rsers = [(ser, False)]
+            if not local_server:
+                pass
+            # the server side may know more serializers than the one the client asks for
+            more = [(n, False) for n in SER_NAMES if n != ser and ch.flag("server-also:" + n, 0.3)]
+            if local_server:
+                lsers = lsers + more
+            else:
+                rsers = rsers + more
+            # announced maxima: Twisted by option; asyncio announces 2^24 (or less through the labelled knob)
+            txmax = ch.pick((2 ** 24, 512, 1024, 4096, 600), "tx-max", (3, 2, 2, 1, 1))
+            if ch.flag("aio-rs-small-announce", 0.4):
+                aio_exp = ch.pick((1, 2, 3), "aio-rs-exp")
+            aiomax = 2 ** (9 + aio_exp) if aio_exp else 2 ** 24
+            cfg["tx_max"], cfg["aio_max"] = txmax, aiomax
+            if self.fwname == "tx":
+                lopts = {"maxMessagePayloadSize": txmax}
+                self.limit["R"] = 2 ** _ceil_log2(txmax)
+                self.limit["L"] = aiomax
+            else:
+                ropts = {"maxMessagePayloadSize": txmax}
+                self.limit["L"] = 2 ** _ceil_log2(txmax)
+                self.limit["R"] = aiomax
+        else:
+            def draw_list(tag):
+                names = list(SER_NAMES)
+                out = []
+                for _ in range(1 + ch.choose(3, tag + ":n")):
+                    out.append((names.pop(ch.choose(len(names), tag + ":pick")), ch.flag(tag + ":batched", 0.2)))
+                return out
+            lsers = draw_list("l")
+            rsers = draw_list("r")
+            # make sure there is something in common most of the time
+            if not [x for x in lsers if x in rsers] and ch.flag("force-common", 0.8):
+                rsers = rsers + [lsers[-1]]
+            cl, sl = (rsers, lsers) if local_server else (lsers, rsers)
+            common = [x for x in cl if x in sl]
+            cfg["common"] = common[0] if common else None
+            cfg["ser"], cfg["batched"] = common[0] if common else (lsers[0][0], False)
+            cm = ch.pick((0, 0, 300, 1000), "ws-max")
+            lopts = ropts = {"maxMessagePayloadSize": cm}
+            self.limit["L"] = self.limit["R"] = cm or None
+            cfg["ws_max"] = cm
+        cfg["lsers"], cfg["rsers"] = lsers, rsers
+        sess = self.new_session("L")
+        e, peer = self.build_stack_raw(kind, local_server, lambda: sess, [make_ser(n, b) for n, b in lsers], lopts)
+        if self.fwname == "aio" and kind == "rs" and aio_exp:
+            e.p._length_exp = aio_exp
+            e.p.max_length = 2 ** (9 + aio_exp)
+        if kind == "ws":
+            e.monitor = SenderMonitor("mustnot" if local_server else "must")
+            self.hook_ws_monitor(e)
+        self.unserializable = []
+        self.plan = {"L": self.make_messages("L"), "R": [m for m in self.make_messages("R")]}
+        self.plan["R"] = [m for m in self.plan["R"] if not any(m is u for u in self.unserializable)]
+        self.sent_ok = {"L": [], "R": []}
+        self.cursor = {"L": 0, "R": 0}
+        self.r_events = []
+        self.r_escaped = []
+        self.r_gone = False
+        self.r_attached = False
+        self.r_serializer = None
+        self.r_out = bytearray()
+        self.to_remote = 0  # cursor into peer.received: octets the local endpoint wrote that have reached the remote one
+        self.helper = Helper.get(other)
+        seamseed = ch.choose(1 << 16, "remote-seamseed")
+        resp = self.helper.call("reset", {"kind": kind, "is_server": not local_server, "sers": rsers, "opts": ropts,
+                                          "seamseed": seamseed, "aio_rs_exp": aio_exp})
+        self.xfw_absorb(resp)
+        self.start(e)
+        self.run.probe("xfw:%s:%s-%s" % (kind, self.fwname + ("S" if local_server else "C"), other + ("C" if local_server else "S")))
+
+    def xfw_absorb(self, resp):
+        """What the remote endpoint wrote goes onto the link towards the local one; what its session saw is recorded."""
+        if resp["out"]:
+            self.r_out += resp["out"]
+            self.peer.send(resp["out"])
+        for ev in resp["events"]:
+            self.run.log("remote-session", ev[0], ev[1][:3] if ev[0] == "onMessage" else ev[1:])
+            self.r_events.append(ev)
+        for esc in resp["escaped"]:
+            self.r_escaped.append(esc)
+            self.run.log("remote-escaped", esc)
+        self.r_gone = resp["gone"]
+        self.r_attached = resp["attached"]
+        self.r_serializer = resp["serializer"]
+        if resp.get("saw_fin") or resp.get("saw_rst"):
+            self.r_closed_link = True
+
+    r_closed_link = False
+
+    def xfw_pending(self):
+        return len(self.peer.received) - self.to_remote
+
+    def xfw_feed(self, whole=False):
+        n = self.xfw_pending()
+        k = n if whole else self.pick_chunk(n)
+        chunk = bytes(self.peer.received[self.to_remote:self.to_remote + k])
+        self.to_remote += k
+        if self.to_remote < len(self.peer.received):
+            self.run.probe("split-delivery")
+        self.run.log("deliver-remote", len(chunk), short(chunk))
+        self.xfw_absorb(self.helper.call("feed", chunk))
+
+    def xfw_remote_send(self):
+        msg = self.plan["R"][self.cursor["R"]]
+        self.cursor["R"] += 1
+        size = len(make_ser(self.cfg["ser"], self.cfg["batched"]).serialize(msg)[0])
+        lim = self.limit["R"]
+        n0 = len(self.r_out)
+        resp = self.helper.call("send", msg.marshal())
+        self.xfw_absorb(resp)
+        self.run.log("remote-send", type(msg).__name__, size, resp["sent"], resp.get("exc"))
+        kind = self.cfg["kind"]
+        if not resp["sent"]:
+            if lim is None or size <= lim:
+                self.run.violate("C13.never-over-announced", "send-within-limit-raised:%s:%s:xfw-remote" % (kind, resp.get("exc")),
+                                 "size %d limit %r" % (size, lim))
+            else:
+                self.run.probe("over-limit-send-refused")
+                if len(self.r_out) != n0:
+                    self.run.violate("C13.never-over-announced", "refused-send-wrote-octets:xfw-remote", "")
+            return
+        if lim is not None and size > lim:
+            self.run.violate("C13.never-over-announced", "over-limit-send-accepted:%s:xfw-remote" % kind, "size %d limit %d" % (size, lim))
+            return
+        self.sent_ok["R"].append(msg)
+
+    def xfw_local_send(self):
+        sess = self.sessions[0]
+        msg = self.plan["L"][self.cursor["L"]]
+        self.cursor["L"] += 1
+        w0 = len(self.peer.received) + len(getattr(self.e.t, "outbuf", b""))
+        kind = self.cfg["kind"]
+        if any(msg is u for u in self.unserializable):
+            try:
+                self.fw.call(self, sess._transport.send, msg)
+            except Exception as ex:  # noqa
+                self.run.probe("unserializable-message-refused:%s" % type(ex).__name__)
+            else:
+                self.run.violate("C13.intact-in-order", "unserializable-message-accepted:%s" % kind, "")
+            return
+        size = len(make_ser(self.cfg["ser"], self.cfg["batched"]).serialize(msg)[0])
+        lim = self.limit["L"]
+        try:
+            self.fw.call(self, sess._transport.send, msg)
+        except Exception as ex:  # noqa
+            self.run.log("send-raised", "L", type(ex).__name__, size)
+            if lim is None or size <= lim:
+                self.run.violate("C13.never-over-announced", "send-within-limit-raised:%s:%s" % (kind, type(ex).__name__),
+                                 "size %d limit %r: %r" % (size, lim, ex))
+            else:
+                self.run.probe("over-limit-send-refused")
+            return
+        if lim is not None and size > lim:
+            self.run.violate("C13.never-over-announced", "over-limit-send-accepted:%s" % kind, "size %d limit %d" % (size, lim))
+            return
+        self.sent_ok["L"].append(msg)
+
+    def drain(self):
+        if self.cfg["mode"] != "xfw":
+            return StackWorld.drain(self)
+        for _ in range(200):
+            StackWorld.drain(self)
+            if self.run.fatal:
+                return
+            if not self.xfw_pending() or self.r_gone:
+                break
+            self.xfw_feed(whole=True)
+        else:
+            raise HarnessError("xfw drain did not converge")
+
+    def final_xfw(self):
+        run = self.run
+        cfg = self.cfg
+        kind = cfg["kind"]
+        sess = self.sessions[0]
+        r_opens = sum(1 for ev in self.r_events if ev[0] == "onOpen")
+        r_closes = sum(1 for ev in self.r_events if ev[0] == "onClose")
+        r_msgs = [ev[1] for ev in self.r_events if ev[0] == "onMessage"]
+        pairing = "%s-%s" % (self.fwname, cfg["remote_fw"])
+        for esc in self.r_escaped:
+            run.violate("C13.refuse-quietly", "xfw-remote:%s:%s:%s" % tuple(esc), pairing)
+        should_attach = kind == "rs" or cfg.get("common") is not None
+        if not should_attach:
+            if sess.opens or r_opens:
+                run.violate("C13.attach-iff-negotiated", "attached-without-common-subprotocol:xfw", repr((cfg["lsers"], cfg["rsers"])))
+            run.probe("xfw-no-common-subprotocol")
+            return
+        if sess.opens != 1 or r_opens != 1:
+            run.violate("C13.attach-iff-negotiated", "valid-handshake-not-attached:xfw:%s:%s" % (kind, pairing),
+                        "local opens %d remote opens %d" % (sess.opens, r_opens))
+            return
+        run.probe("xfw-attached")
+        if kind == "ws":
+            want = "%s%s" % (cfg["common"][0], ".batched" if cfg["common"][1] else "")
+            got_l = self.e.p._serializer.SERIALIZER_ID
+            if got_l != self.r_serializer:
+                run.violate("C13.attach-iff-negotiated", "ends-use-different-serializers:xfw", "%s vs %s" % (got_l, self.r_serializer))
+            if got_l != want:
+                run.violate("C13.attach-iff-negotiated", "not-clients-first-preference:xfw", "chosen %s, want %s" % (got_l, want))
+        for who, got, tag in (("L", r_msgs, "remote"), ("R", [m.marshal() for m in sess.msgs], "local")):
+            want = [m.marshal() for m in self.sent_ok[who]]
+            if _norm(got) != _norm(want):
+                k = 0
+                while k < len(got) and k < len(want) and _norm([got[k]]) == _norm([want[k]]):
+                    k += 1
+                what = "missing" if len(got) < len(want) else ("extra" if len(got) > len(want) else "differs")
+                run.violate("C13.intact-in-order", "%s:%s:%s:xfw-%s" % (what, kind, cfg["ser"], tag),
+                            "%s (%s) sent %d, peer got %d, first difference at #%d: %s vs %s" % (
+                                who, pairing, len(want), len(got), k, short(repr(got[k]).encode(), 60) if k < len(got) else None,
+                                short(repr(want[k]).encode(), 60) if k < len(want) else None))
+        if sess.closes or r_closes or self.r_gone or self.e.t.is_gone():
+            run.violate("C13.intact-in-order", "transport-closed-during-valid-traffic:%s:xfw" % kind,
+                        "local closes %d gone %s, remote closes %d gone %s" % (sess.closes, self.e.t.is_gone(), r_closes, self.r_gone))
+        if kind == "rs":
+            self.scan_rs_frames(bytes(self.peer.received[4:]), self.limit["L"], "L")
+            self.scan_rs_frames(bytes(self.r_out[4:]), self.limit["R"], "R")
+
     # --- rs-limits -----------------------------------------------------------------------------------------------------------
     def build_rs_limits(self):
         ch = self.run.ch
@@ -421,6 +664,14 @@ class World(StackWorld):
             for who, e, sess in (("C", self.client, self.sessions[0]), ("S", self.server, self.sessions[1])):
                 if self.cursor[who] < len(self.plan[who]) and sess.opens and sess._transport is not None:
                     acts.append((3.0, "send:" + who, lambda who=who, sess=sess: self.traffic_send(who, sess)))
+        elif name == "xfw":
+            if self.xfw_pending() and not self.r_gone:
+                acts.append((8.0, "deliver-remote", self.xfw_feed))
+            sess = self.sessions[0]
+            if self.cursor["L"] < len(self.plan["L"]) and sess.opens and sess._transport is not None:
+                acts.append((3.0, "send:L", self.xfw_local_send))
+            if self.cursor["R"] < len(self.plan["R"]) and self.r_attached and not self.r_gone:
+                acts.append((3.0, "send:R", self.xfw_remote_send))
         elif name == "rs-limits":
             if self.app_msgs and self.sessions[0]._transport is not None:
                 acts.append((3.0, "app-send", self.limits_send))
@@ -528,7 +779,7 @@ class World(StackWorld):
     def on_escape(self, ep, where, exc):
         name = self.cfg["mode"]
         site = exc_site(exc)
-        if name.startswith("rs-hs") or name == "ws-negotiate":
+        if name.startswith("rs-hs") or name == "ws-negotiate" or name == "xfw":
             self.run.violate("C13.refuse-quietly", "%s:%s:%s" % (where, type(exc).__name__, site), repr(exc))
         elif where in ("dataReceived", "data_received") and name in ("rs-limits", "corrupt"):
             # the framework drops the connection when data_received raises: the transport is closed
@@ -575,6 +826,11 @@ class World(StackWorld):
         i = 0
         while len(data) - i >= 4:
             n = struct.unpack("!L", b"\x00" + data[i + 1:i + 4])[0]
+            if data[i] != 0 and not getattr(self, "_type_rep", False):
+                # first octet of a frame header: RRRRRTTT - reserved bits zero, type 0 = regular WAMP message (the
+                # transports never originate RawSocket pings on their own)
+                self._type_rep = True
+                self.run.violate("C13.intact-in-order", "rs-frame-header-octet-0-not-zero", "%s wrote header %s" % (who, data[i:i + 4].hex()))
             if n > limit and not getattr(self, "_over_rep", False):
                 self._over_rep = True
                 self.run.violate("C13.never-over-announced", "frame-longer-than-announced", "%s wrote a frame of %d, limit %d" % (who, n, limit))
@@ -592,6 +848,8 @@ class World(StackWorld):
             self.final_traffic()
         elif name == "corrupt":
             self.final_corrupt()
+        elif name == "xfw":
+            self.final_xfw()
         # told-once: every attached session is told exactly once that the transport is gone
         for s, e in self.session_ends():
             if s.opens and e.t.is_gone() and s.closes != 1:
